@@ -27,6 +27,7 @@ FIELD_POOL = {
     "LEAF": ([{"v": 1}, {}], [{"v": "s"}, 3, None]),
 }
 ALIASES = ["type", "kind", "pet_type", "$t", "tag"]
+PATTERN_SRC = "\n    px: Dict[str, int] = field(default_factory=dict, metadata=properties(pattern=r'^x-'))"
 FIELD_NAMES = ["x", "y", "z", "w", "some_field", "v"]
 
 
@@ -148,11 +149,15 @@ def generate(rng, n):
                 tn = f"Renamed{nm}"
                 deco = f"@type_name({tn!r})\n"
                 fam.features.add("type_name_override")
+            pat = not any(f[1] == "PATTERN" for f in inherited_fields) and rng.random() < 0.15
+            if pat:  # an aggregate field: the alternative goes through the general object method, the tag is still not "unexpected"
+                extra_src += PATTERN_SRC
+                fam.features.add("pattern_properties_field")
             body = _fields_src(own, n)
             if body.strip() == "pass" and extra_src:
                 body = ""
             src.append(f"{deco}@dataclass\nclass {nm}({parent}):\n{body}{extra_src}\n")
-            allf = inherited_fields + own + ([("children", "REC", "[]")] if extra_src else [])
+            allf = inherited_fields + own + ([("children", "REC", "[]")] if fam.recursive and "children" in extra_src else []) + ([("px", "PATTERN", "{}")] if pat else [])
             implicit = [tn or nm]
             tags = implicit
             if nm in renamed:
@@ -220,6 +225,10 @@ def generate(rng, n):
                 body = _fields_src(own, n)
                 if tf_src and body.strip() == "pass":
                     body = ""
+                if rng.random() < 0.15:
+                    body = ("" if body.strip() == "pass" else body) + PATTERN_SRC
+                    own = own + [("px", "PATTERN", "{}")]
+                    fam.features.add("pattern_properties_field")
                 src.append(f"{deco}@dataclass\nclass {nm}:\n{tf_src}{body}\n")
             implicit = list(tag_field[1]) if tag_field and tag_field[0] == "literal" else [tn or nm]
             fam.alts.append(Alt(nm, implicit, own, typed_dict=td, tag_field=tag_field, type_name=tn))
@@ -288,7 +297,11 @@ def alt_object(fam, alt, rng, aliaser=None, depth=0, valid=True):
         if default is not None and rng.random() < 0.4:
             continue
         key = aliased(nm, aliaser)
-        if tp == "REC":
+        if tp == "PATTERN":
+            del_ = d.pop(key, None)
+            for k_ in rng.sample(["x-a", "x-", "x-some_key"], rng.choice([0, 1, 2])):
+                d[k_] = rng.choice([0, 5])  # keys matched by the pattern are data keys: never aliased
+        elif tp == "REC":
             if depth < 2 and rng.random() < 0.5:
                 d[key] = [alt_object(fam, rng.choice(fam.alts), rng, aliaser, depth + 1) for _ in range(rng.choice([1, 2]))]
             else:
@@ -311,6 +324,10 @@ def mutants(fam, alt, obj, rng, aliaser=None):
         o = dict(obj); o[fam.alias] = o.get(tagkey); out.append(("unaliased-tag-added", o))
     for nm, tp, default in alt.fields:
         key = aliased(nm, aliaser)
+        if tp == "PATTERN":
+            o = dict(obj); o["x-bad"] = "s"; out.append(("bad-pattern-value", o))
+            o = dict(obj); o["x-ok"] = 1; out.append(("pattern-key-added", o))
+            continue
         if tp != "REC":
             o = dict(obj); o[key] = copy.deepcopy(rng.choice(FIELD_POOL[tp][1])); out.append(("bad-" + nm, o))
         if key in obj:
